@@ -1436,6 +1436,23 @@ int32 matrixUpdateSession(ssl_t *ssl)
         /* No table entry.  matrixRegisterSession was full of inUse entries */
         return PS_LIMIT_FAIL;
     }
+    /* A connection resumed from a ticket, or a TLS 1.3 connection, has no
+       table entry either: its session id is the client's own choice,
+       echoed, and may name the entry of somebody else's session - whose
+       secret this connection's must not replace. */
+#  ifdef USE_TLS_1_3
+    if (NGTD_VER(ssl, v_tls_1_3_any))
+    {
+        return PS_LIMIT_FAIL;
+    }
+#  endif
+#  ifdef USE_STATELESS_SESSION_TICKETS
+    if ((ssl->flags & SSL_FLAGS_RESUMED) && ssl->sid &&
+        ssl->sid->sessionTicketState == SESS_TICKET_STATE_USING_TICKET)
+    {
+        return PS_LIMIT_FAIL;
+    }
+#  endif
     id = ssl->sessionId;
     i = (id[3] << 24) + (id[2] << 16) + (id[1] << 8) + id[0];
     if (i >= SSL_SESSION_TABLE_SIZE)
